@@ -6,6 +6,11 @@ use crate::frame;
 
 mod fragment_buffer;
 
+#[cfg(uflow_verif)]
+pub mod verif_exports {
+    pub use super::fragment_buffer::FragmentBuffer;
+}
+
 struct ActiveEntry {
     // How many allocation points this entry is worth
     alloc_size: usize,
